@@ -4,7 +4,9 @@ package rules
 
 import (
 	"go/ast"
+	"go/token"
 	"go/types"
+	"sort"
 
 	"fpcheck/core"
 
@@ -105,7 +107,16 @@ func memoizerCheck(c *core.Ctx, p *packages.Package, fd *ast.FuncDecl) (isMemo b
 		}
 		return true
 	})
-	if refs != 1 || inside != 1 {
+	// the thunk is called exactly once, and every mention of it (the call, a `f = nil` that releases it after the run)
+	// lies inside what once.Do runs
+	calls := 0
+	ast.Inspect(doLit, func(x ast.Node) bool {
+		if call, ok := x.(*ast.CallExpr); ok && objOf(info, call.Fun) == thunk {
+			calls++
+		}
+		return true
+	})
+	if refs != inside || calls != 1 {
 		problems = append(problems, "the computation "+thunk.Name()+" is referenced "+itoa(refs)+" time(s), "+itoa(inside)+" of them inside once.Do: there is a path that runs it outside the once guard (or never)")
 	}
 	// once.Do must be the first statement of the returned closure (the cached cell is read only afterwards)
@@ -214,86 +225,138 @@ func Memo(c *core.Ctx, rule string) {
 }
 
 func Tramp(c *core.Ctx, rule string) {
-	c.Rule(rule, "package lazy: building an Eval (every function except Resume/Run/Get) calls no function-typed value outside function literals; Resume and Run never call Run/Get statically (the interpreter loops, it does not recurse); Run contains the loop that calls Resume")
+	c.Rule(rule, "package lazy: the interpreter (Run, Resume, Get and the unexported functions only they reach) never calls Run/Get statically (it loops, it does not recurse), and Run contains the loop that drives the continuations (a call of Resume, or of a function-typed field of Eval, inside a for statement); every other function — the ones that build an Eval — calls no function-typed value outside function literals")
 	p := c.Pkg("lazy")
 	info := p.TypesInfo
-	n := 0
+	decls := map[*types.Func]*ast.FuncDecl{}
 	for _, f := range p.Syntax {
 		for _, d := range f.Decls {
-			fd, ok := d.(*ast.FuncDecl)
-			if !ok || fd.Body == nil {
-				continue
+			if fd, ok := d.(*ast.FuncDecl); ok && fd.Body != nil {
+				if fn, ok := info.Defs[fd.Name].(*types.Func); ok {
+					decls[fn] = fd
+				}
 			}
-			name := c.FuncName(p, fd)
-			base := fd.Name.Name
-			n++
-			switch base {
-			case "Run", "Resume":
-				bad := nodeContains(fd.Body, true, func(x ast.Node) bool {
-					call, ok := x.(*ast.CallExpr)
+		}
+	}
+	// interpreter = Run, Resume, Get + unexported functions/methods reachable from them by static calls (outside literals)
+	interp := map[*types.Func]bool{}
+	var reach func(fn *types.Func)
+	reach = func(fn *types.Func) {
+		if interp[fn] {
+			return
+		}
+		interp[fn] = true
+		fd := decls[fn]
+		if fd == nil {
+			return
+		}
+		inspectShallow(fd.Body, func(x ast.Node) bool {
+			if call, ok := x.(*ast.CallExpr); ok {
+				if callee := calleeOf(info, call); callee != nil && callee.Pkg() == p.Types {
+					if o := callee.Origin(); decls[o] != nil && !token.IsExported(o.Name()) {
+						reach(o)
+					}
+				}
+			}
+			return true
+		})
+	}
+	for fn := range decls {
+		switch fn.Name() {
+		case "Run", "Resume", "Get":
+			reach(fn)
+		}
+	}
+	callsFuncValue := func(body ast.Node) *ast.CallExpr {
+		var hit *ast.CallExpr
+		inspectShallow(body, func(x ast.Node) bool {
+			call, ok := x.(*ast.CallExpr)
+			if !ok || hit != nil {
+				return true
+			}
+			fun := ast.Unparen(call.Fun)
+			if o, ok := objOf(info, fun).(*types.Var); ok {
+				if _, isFn := o.Type().Underlying().(*types.Signature); isFn {
+					hit = call
+				}
+			}
+			if sel, ok := fun.(*ast.SelectorExpr); ok {
+				if s := info.Selections[sel]; s != nil && s.Kind() == types.FieldVal {
+					if _, isFn := s.Type().Underlying().(*types.Signature); isFn {
+						hit = call
+					}
+				}
+			}
+			return true
+		})
+		return hit
+	}
+	n := 0
+	var fns []*types.Func
+	for fn := range decls {
+		fns = append(fns, fn)
+	}
+	sort.Slice(fns, func(i, j int) bool { return decls[fns[i]].Pos() < decls[fns[j]].Pos() })
+	for _, fn := range fns {
+		fd := decls[fn]
+		name := c.FuncName(p, fd)
+		base := fd.Name.Name
+		n++
+		if interp[fn] {
+			bad := nodeContains(fd.Body, true, func(x ast.Node) bool {
+				call, ok := x.(*ast.CallExpr)
+				if !ok {
+					return false
+				}
+				callee := calleeOf(info, call)
+				return callee != nil && callee.Pkg() == p.Types && (callee.Name() == "Run" || callee.Name() == "Get") && !(base == "Get" && callee.Name() == "Run")
+			})
+			if bad {
+				c.Add(rule, name+"/no-recursion", fd.Pos(), core.Violated, name+" calls Run/Get: the evaluator recurses on the Go stack instead of looping (stack depth grows with the program)")
+			} else {
+				c.Add(rule, name+"/no-recursion", fd.Pos(), core.Discharged, "no static call back into the evaluator")
+			}
+			if base == "Run" {
+				loop := nodeContains(fd.Body, false, func(x ast.Node) bool {
+					fs, ok := x.(*ast.ForStmt)
 					if !ok {
 						return false
 					}
-					callee := calleeOf(info, call)
-					return callee != nil && callee.Pkg() == p.Types && (callee.Name() == "Run" || callee.Name() == "Get")
-				})
-				if bad {
-					c.Add(rule, name+"/no-recursion", fd.Pos(), core.Violated, name+" calls Run/Get: the evaluator recurses on the Go stack instead of looping (stack depth grows with the program)")
-				} else {
-					c.Add(rule, name+"/no-recursion", fd.Pos(), core.Discharged, "no static call back into the evaluator")
-				}
-				if base == "Run" {
-					loop := nodeContains(fd.Body, false, func(x ast.Node) bool {
-						fs, ok := x.(*ast.ForStmt)
+					return nodeContains(fs, false, func(y ast.Node) bool {
+						call, ok := y.(*ast.CallExpr)
 						if !ok {
 							return false
 						}
-						return nodeContains(fs.Body, false, func(y ast.Node) bool {
-							call, ok := y.(*ast.CallExpr)
-							if !ok {
-								return false
-							}
-							sel, ok := ast.Unparen(call.Fun).(*ast.SelectorExpr)
-							return ok && sel.Sel.Name == "Resume"
-						})
-					})
-					if loop {
-						c.Add(rule, name+"/loop", fd.Pos(), core.Discharged, "loops on Resume")
-					} else {
-						c.Add(rule, name+"/loop", fd.Pos(), core.Violated, "Run does not loop on Resume: continuations are not driven to completion iteratively")
-					}
-				}
-			case "Get":
-				c.Add(rule, name, fd.Pos(), core.Discharged, "entry point")
-			default:
-				// eager path: no call of a function-typed value
-				var hit *ast.CallExpr
-				inspectShallow(fd.Body, func(x ast.Node) bool {
-					call, ok := x.(*ast.CallExpr)
-					if !ok || hit != nil {
-						return true
-					}
-					fun := ast.Unparen(call.Fun)
-					if o, ok := objOf(info, fun).(*types.Var); ok {
-						if _, isFn := o.Type().Underlying().(*types.Signature); isFn {
-							hit = call
+						sel, ok := ast.Unparen(call.Fun).(*ast.SelectorExpr)
+						if !ok {
+							return false
 						}
-					}
-					if sel, ok := fun.(*ast.SelectorExpr); ok {
+						if sel.Sel.Name == "Resume" {
+							return true
+						}
+						// a continuation field of the Eval called in the loop: the bounce done in place
 						if s := info.Selections[sel]; s != nil && s.Kind() == types.FieldVal {
 							if _, isFn := s.Type().Underlying().(*types.Signature); isFn {
-								hit = call
+								if tv, ok := info.Types[sel.X]; ok && isNamed(tv.Type, "lazy", "Eval") {
+									return true
+								}
 							}
 						}
-					}
-					return true
+						return false
+					})
 				})
-				if hit != nil {
-					c.Add(rule, name+"/eager-call", hit.Pos(), core.Violated, name+" runs `"+exprString(hit)+"` while building the Eval: the computation is not deferred to the trampoline (evaluated eagerly / on the caller's stack)")
+				if loop {
+					c.Add(rule, name+"/loop", fd.Pos(), core.Discharged, "drives the continuations in a loop")
 				} else {
-					c.Add(rule, name+"/eager-call", fd.Pos(), core.Discharged, "only allocates")
+					c.Add(rule, name+"/loop", fd.Pos(), core.Violated, "Run does not loop on Resume (or on the continuation field): continuations are not driven to completion iteratively")
 				}
 			}
+			continue
+		}
+		if hit := callsFuncValue(fd.Body); hit != nil {
+			c.Add(rule, name+"/eager-call", hit.Pos(), core.Violated, name+" runs `"+exprString(hit)+"` while building the Eval: the computation is not deferred to the trampoline (evaluated eagerly / on the caller's stack)")
+		} else {
+			c.Add(rule, name+"/eager-call", fd.Pos(), core.Discharged, "only allocates")
 		}
 	}
 	c.Floor(rule, "functions of package lazy", n, 15)
